@@ -1,6 +1,6 @@
 \* trace validation on core N
-CONSTANTS NL = 9  NA0 = 7  NP0 = 2  NF = 4  MB = 4  MaxCascade = 4  MaxLevel = 999  ReAdd = TRUE
-CONSTANTS Layout <- LayoutN  Place <- PlaceN  SFlagSets <- Unused  TrackSet <- Unused
+CONSTANTS NL = 9  NA0 = 7  NP0 = 2  NF = 4  MB = 4  MaxCascade = 4  MaxLoop = 3  MaxChain = 2  MaxLevel = 999  ReAdd = TRUE
+CONSTANTS Layout <- LayoutN  Place <- PlaceN  SFlagSets <- Unused  TrackSet <- Unused  DbSet <- Unused
 SPECIFICATION TSpec
 CONSTRAINT Progress
 POSTCONDITION Report
@@ -18,4 +18,5 @@ INVARIANT ContentsUnchanged
 INVARIANT BlocksPartition
 INVARIANT BlockOrderKept
 INVARIANT NoFlagsNoExchange
+INVARIANT LookupsAgree
 CHECK_DEADLOCK FALSE
